@@ -90,6 +90,55 @@ Proof. exact duplicates_would_mispair. Qed.
 Theorem C17_check_equality_sound : forall a b, generated_eqb a b = true -> a = b.
 Proof. exact generated_eqb_sound. Qed.
 
+(* The property's dichotomy in one statement, for EVERY definition: the toolchain rejects it, or
+   every enabled method is connected to itself - for every argument vector, arguments of type
+   Context included, whatever the arguments are called. *)
+Theorem C17_rejected_or_correct : forall serde1 fb s,
+  match gen serde1 fb s with
+  | Err _ => True
+  | Ok g =>
+      rustc_accepts (strip g) = false \/
+      forall m, In m (s_methods s) -> enabled m = true ->
+      forall (impl : implementor) c vs, length vs = length (m_args m) ->
+        client_call (strip g) impl (i_txt (m_name m)) c vs
+        = ODone (Inv (i_txt (m_name m)) c vs) (impl (i_txt (m_name m)) c vs)
+  end.
+Proof. exact rejected_or_correct. Qed.
+
+(* The one identifier of the expansion an argument can really capture is the server arm's `ctx`.
+   An argument called `ctx` - of any type, tarpc::context::Context included - on a method that
+   is not cfg'd out is rejected (duplicate parameter of the generated client fn). *)
+Theorem C17_ctx_argument_rejected : forall serde1 fb s m a,
+  In m (s_methods s) -> enabled m = true -> In a (m_args m) -> i_txt (a_name a) = lit "ctx" ->
+  match gen serde1 fb s with
+  | Err _ => True
+  | Ok g => rustc_accepts (strip g) = false
+  end.
+Proof. exact ctx_argument_rejected. Qed.
+
+(* That rejection is the only guard: with the client fn's parameter called `context` instead
+   (items `client_ctx_renamed`), `trait Relay { async fn forward(ctx: Context) -> u8; }` is
+   accepted, type-checks, and the implementor receives the argument as the request's context. *)
+Theorem C17_ctx_context_argument_guard :
+  exists g, gen true FallbackErr relay_witness = Ok g
+    /\ rustc_accepts (strip g) = false
+    /\ rustc_accepts (client_ctx_renamed (strip g)) = true
+    /\ client_call (client_ctx_renamed (strip g)) (impl_of relay_witness) (lit "forward")
+         (VCtx 1000 7000) (vals_of [Arg (plain "ctx") ty_context] [1])
+       = ODone (Inv (lit "forward") (VCtx 1 1) [VCtx 1 1]) 200.
+Proof. exact ctx_context_argument_guard. Qed.
+
+(* The other identifiers the expansion binds (context, req, request, resp, msg, service) are
+   harmless as argument names even at the type Context. *)
+Theorem C17_expansion_names_harmless :
+  exists g, gen true FallbackErr expansion_names_witness = Ok g
+    /\ rustc_accepts (strip g) = true
+    /\ client_call (strip g) (impl_of expansion_names_witness) (lit "forward") (VCtx 1000 7000)
+         [VCtx 1 1; VCtx 2 2; VCtx 3 3; VCtx 4 4; VCtx 5 5; VCtx 6 6]
+       = ODone (Inv (lit "forward") (VCtx 1000 7000)
+                    [VCtx 1 1; VCtx 2 2; VCtx 3 3; VCtx 4 4; VCtx 5 5; VCtx 6 6]) 200.
+Proof. exact expansion_names_harmless. Qed.
+
 (* non-vacuity: an accepted definition with raw identifiers, same-typed siblings, a cfg'd-out
    method and derive options; what its scripted calls observe *)
 Example C17_nonvacuous :
@@ -110,3 +159,7 @@ Print Assumptions C17_monitor.
 Print Assumptions C17_name_unraw_refuted.
 Print Assumptions C17_duplicates_would_mispair.
 Print Assumptions C17_check_equality_sound.
+Print Assumptions C17_rejected_or_correct.
+Print Assumptions C17_ctx_argument_rejected.
+Print Assumptions C17_ctx_context_argument_guard.
+Print Assumptions C17_expansion_names_harmless.
